@@ -278,6 +278,44 @@ def w_split(job):
             'viol': viol, 'sample': {'len': job['lo'], 'k': job['kmax']}}
 
 
+def w_lattice(job):
+    """Right table / candidate set of n rows, each contributing exactly one output row; every n_jobs in
+    1..n+1: no row may be lost or duplicated at a chunk boundary."""
+    sched.install()
+    ep = job['ep']
+    viol = []
+    cases = nontrivial = 0
+    for n in range(job['lo'], job['hi']):
+        lv = ['w%03d x%03d' % (i, i) for i in range(n)]
+        rv = list(lv)      # identical strings: similarity 1.0 / distance 0 on the diagonal only
+        L, R = frame(lv, 'l'), frame(rv, 'r')
+        cand = None
+        if ep.startswith('candset') or ep == 'matcher':
+            import pandas as pd
+            cand = pd.DataFrame({'_id': list(range(n)), 'l_id': L['id'].tolist(), 'r_id': R['id'].tolist()})
+        for k in range(1, n + 2):
+            sched.CTL.reset()
+            out = run_ep(ep, L, R, k, cand=cand, t=1.0 if ep != 'ftables:Overlap' and ep != 'candset:Overlap' else 2)
+            cases += 1
+            nontrivial += int(k > 1)
+            keys = sorted((cell(a), cell(b)) for a, b in zip(out['l_id'].tolist(), out['r_id'].tolist()))
+            if k == 1:
+                base = keys
+            # SizeFilter lists every pair of equal size: compared with its own n_jobs=1 result
+            exp = base if ep == 'ftables:Size' else \
+                sorted((cell(a), cell(b)) for a, b in zip(L['id'].tolist(), R['id'].tolist()))
+            if keys != exp:
+                if len(viol) < MAXV:
+                    viol.append({'key': 'C10|lattice|%s|n%d|k%d' % (ep, n, k),
+                                 'what': 'C10: %s on %d rows (one matching pair per row) with n_jobs=%d returns %d rows; '
+                                         'missing %r, extra/duplicated %r' % (
+                                             ep, n, k, len(keys), [x for x in exp if x not in keys][:3],
+                                             [x for x in keys if keys.count(x) > 1 or x not in exp][:3]),
+                                 'detail': {}})
+    return {'cases': cases, 'calls': cases, 'nontrivial': nontrivial, 'outcomes': {'rows-preserved': cases - len(viol), 'n': 1},
+            'viol': viol, 'sample': {'entry_point': ep, 'rows': [job['lo'], job['hi'] - 1]}}
+
+
 def njobs_for(nrows):
     c = multiprocessing.cpu_count()
     return sorted(set(list(range(1, nrows + 3)) + [-1, -2, -(c + 3), 0]))
@@ -301,6 +339,14 @@ def layers(tier):
                     'k <= 4 tasks, otherwise all orders within %d adjacent transposition(s)) under the owned '
                     'scheduler with pickled task boundaries; non-trivial = schedule with >= 2 tasks'
                     % (1 if quick else 2), min_nontrivial=500, chunksize=1))
+    nmax = 33 if quick else 65
+    jobs = [{'ep': ep, 'lo': lo, 'hi': min(lo + 4, nmax)} for ep in
+            ('join:JACCARD', 'join:EDIT_DISTANCE', 'ftables:Size', 'ftables:Overlap', 'candset:Overlap', 'matcher')
+            for lo in range(1, nmax, 4)]
+    Ls.append(Layer('row-count-lattice', 'checks.c10:w_lattice', jobs,
+                    '6 entry points on tables / candidate sets of n = 1..%d rows with exactly one output row per '
+                    'input row x every n_jobs in 1..n+1 (all chunk boundaries split_table can produce for these '
+                    'sizes): no row lost or duplicated' % (nmax - 1), min_nontrivial=1000, chunksize=1))
     jobs = [{'ep': ep, 'family': fi} for ep in ALL_EPS for fi in (1, 5, 2, 3)]
     Ls.append(Layer('presentation', 'checks.c10:w_perm', jobs,
                     'n_jobs=1: all row permutations of either table (3x4-row family: 6+24, plus joint ones), '
